@@ -2,7 +2,7 @@ SPECIFICATION GenSpec
 CONSTANTS
   Reqs = {"r1", "r2", "r3"}
   Bad = {"r3"}
-  Shapes = {{"parm", "body", "user", "hdr", "partmap", "partvar", "pkg", "loc", "arr", "map", "rec", "fn"}}
+  Shapes = {{"parm", "body", "user", "hdr", "partmap", "partvar", "pkg", "loc", "arr", "mp", "rec", "fn"}}
   MaxEvict = 1
   Defects = {}
   Lock = TRUE
